@@ -93,6 +93,27 @@ Theorem C10_end_stamps_teardown : forall hooks i o s s' t r,
 Proof. exact teardown_end_stamps. Qed.
 Print Assumptions C10_end_stamps_teardown.
 
+(* Order.  Over every history (any hooks, any failures, any operations, from any initial state)
+   the four run timestamps, where set, satisfy start <= start-completion <= end <=
+   end-completion, in the final state and in every state the history went through.  ([ordered]
+   is the six pairwise comparisons; the logical clock ticks at every stamp written, so a stamp
+   written later is larger: the stamps are written in that order.) *)
+Theorem C10_stamps_ordered : forall hooks ops init s l,
+  run_ops hooks 0 ops (est0 init) = (s, l) ->
+  ordered (e_rv s) /\ Forall (fun x => ordered (e_rv (snd x))) l.
+Proof. exact stamps_ordered. Qed.
+Print Assumptions C10_stamps_ordered.
+
+(* At most once per run.  In every state a history can reach, every operation (transition,
+   failing or not, watcher sequence, teardown) leaves every stamp that is set exactly as it is
+   ([keep]) - unless it is a START_ACTIVITY that draws a new run number, i.e. begins a new run
+   ([new_run]).  So within one run each of the four stamps is written at most once. *)
+Theorem C10_stamps_once : forall hooks ops init s l i o s' t r,
+  run_ops hooks 0 ops (est0 init) = (s, l) -> run_op hooks i o s = (s', t, r) ->
+  keep (proj s) (proj s') \/ new_run o s s'.
+Proof. exact stamps_once. Qed.
+Print Assumptions C10_stamps_once.
+
 (* Non-vacuity: START, STOP, START again with probes at before_START -1 / 0 and after_STOP +1:
    run numbers 1 and 2; the -1 probe of the second START sees no number and the stamps of run 1,
    the 0 probe sees number 2 and fresh (empty) end stamps; the after_STOP+1 probe still sees the
